@@ -42,6 +42,8 @@ mod common;
 mod mutate;
 #[path = "c08/cliconf.rs"]
 mod cliconf;
+#[path = "c08/inputclass.rs"]
+mod inputclass;
 #[path = "c08/project.rs"]
 mod project;
 #[path = "c08/project_worker.rs"]
@@ -145,6 +147,15 @@ fn at_line() -> String {
     LAST_PANIC_AT.lock().map(|g| g.clone()).unwrap_or_default()
 }
 
+/// an O panic: the signature is the class of the failing INPUT when one applies (a refactoring cannot change the
+/// input), otherwise the code site; the site always stays in the description
+fn fail_classified(rep: &mut Report, stage: &str, site_sig: &str, what: &str, case: &Value) {
+    match inputclass::class_signature(stage, case) {
+        Some(sig) => rep.fail("O", &sig, &format!("{what} [input class; code site: {site_sig}]"), case.clone()),
+        None => rep.fail("O", site_sig, what, case.clone()),
+    }
+}
+
 struct Ctx<'a> {
     rep: &'a mut Report,
     drv: &'a mut Driver,
@@ -166,8 +177,9 @@ impl<'a> Ctx<'a> {
     }
 
     fn o_panic(&mut self, stage: &str, msg: &str, case: &Value) {
-        let sig = format!("panic:{stage}:{}", site_class(msg));
-        self.rep.fail("O", &sig, &format!("{stage} panics at {}: {}", at_line(), msg.lines().next().unwrap_or("")), case.clone());
+        let site = format!("panic:{stage}:{}", site_class(msg));
+        let what = format!("{stage} panics at {}: {}", at_line(), msg.lines().next().unwrap_or(""));
+        fail_classified(self.rep, stage, &site, &what, case);
     }
 
     /// stream A: texts through both parsers, K against the model, O no panic; returns nothing
@@ -314,10 +326,12 @@ impl<'a> Ctx<'a> {
         match r {
             Ok(outs) => {
                 self.rep.count("pipeline:schema-accepted");
-                for (tag, p) in outs {
+                for (i, (tag, p)) in outs.into_iter().enumerate() {
                     self.rep.count(&format!("pipeline:op:{tag}"));
                     if let Some((stage, m)) = p {
-                        self.o_panic(stage, &m, &case);
+                        // the failing case is the schema with the ONE operation document that panicked
+                        let one = json!({"stream": "pipeline", "schema": sdl, "operations": [ops[i]], "label": label});
+                        self.o_panic(stage, &m, &one);
                     }
                 }
             }
@@ -735,7 +749,7 @@ fn stress_stream(rep: &mut Report, cases: &[Value]) {
                 panics.extend(r["cli"]["panics"].as_array().cloned().unwrap_or_default());
                 for p in &panics {
                     let (st, m, at) = (p[0].as_str().unwrap_or(""), p[1].as_str().unwrap_or(""), p[2].as_str().unwrap_or(""));
-                    rep.fail("O", &format!("panic:{st}:{}", site_class_of(at, m)), &format!("{st} panics at {at} on a project of {} files ({class}): {}", c["files"].as_array().map_or(0, |a| a.len()), m.lines().next().unwrap_or("")), c.clone());
+                    fail_classified(rep, st, &format!("panic:{st}:{}", site_class_of(at, m)), &format!("{st} panics at {at} on a project of {} files ({class}): {}", c["files"].as_array().map_or(0, |a| a.len()), m.lines().next().unwrap_or("")), c);
                 }
                 if panics.is_empty() {
                     rep.count(&format!("project-outcome:{}", r["cli"]["outcome"].as_str().unwrap_or("?")));
